@@ -8,6 +8,7 @@ package zap
 
 import (
 	"fmt"
+	"hash/crc32"
 )
 
 type vSkip struct{}
@@ -119,3 +120,9 @@ func vPanics(f func()) (p bool) {
 // left out of this run (the check runs that region separately, pinned to the
 // recorded input). Natively the region is never skipped.
 func vSkipKnown(id string) bool { return false }
+
+// vCRC is the reference CRC-32 (IEEE) of b; under the engine a fold of an uninterpreted step function
+// when bytes are symbolic, so equality of two CRCs means equality of the byte sequences.
+func vCRC(b []byte) uint32 { return crc32.ChecksumIEEE(b) }
+
+func vCRCFrom(crc uint32, b []byte) uint32 { return crc32.Update(crc, crc32.IEEETable, b) }
